@@ -54,6 +54,31 @@ POSITIONS = [
     ("self_def_neg", "t(X) :- x(X), not t(X+1).", True, True, True, False),
     ("self_choice", "{ t(X) } :- t(X-1), x(X).", True, True, True, False),
     ("choice_body", "{ a(X) } :- t(X).", True, False, None, False),
+    ("head_dneg", "not not t(X) :- x(X).", True, False, None, False),
+    ("choice_2nd_elem", "{ a(X) : x(X); t(X) : x(X) }.", True, True, False, False),
+    ("choice_2nd_cond", "{ a(X) : x(X); b(X) : t(X) }.", True, False, None, False),
+    ("disj_2nd_cond", "b ; a(X) : t(X) :- x(1).", True, False, None, False),
+    ("disj_2nd_lit", "b ; t(X) : x(X) :- x(1).", True, True, False, False),
+    ("hagg_2nd_elem", "1 #sum { 1,X : a(X) : x(X); 1,X : t(X) : x(X) }.", True, True, False, False),
+    ("hagg_2nd_cond", "1 #sum { 1,X : a(X) : x(X); 2,X : b(X) : t(X) }.", True, False, None, False),
+    ("hagg_neg_lit", "1 #sum { 1,X : not t(X) : x(X) }.", True, False, None, False),
+    ("hagg_body", "1 #sum { 1,X : a(X) : x(X) } :- t(1).", True, False, None, False),
+    ("disj_body", "a ; b :- t(1).", True, False, None, False),
+    ("choice_body_agg", "{ a } :- #count { X : t(X) } > 0.", True, False, None, False),
+    ("bagg_2nd_elem", "a :- #sum { X : x(X); X,1 : t(X) } > 0.", True, False, None, False),
+    ("bagg_2nd_lit", "a :- #sum { X : x(X), t(X) } > 0.", True, False, None, False),
+    ("bagg_neg_agg", "a :- not #count { X : t(X) } > 0.", True, False, None, False),
+    ("minimize_2nd_elem", "#minimize { X : x(X); X,1 : t(X) }.", True, False, None, False),
+    ("minimize_2nd_lit", "#minimize { X@2 : x(X), t(X) }.", True, False, None, False),
+    ("weak_agg", ":~ #count { X : t(X) } > 0. [1@1]", True, False, None, False),
+    ("self_def_agg", "t(X) :- x(X), #count { Y : t(Y) } < 1.", True, True, True, False),
+    ("self_def_condlit", "t(X) :- x(X), a : t(X-1).", True, True, True, False),
+    ("self_hagg", "1 #sum { 1,X : t(X) : x(X) } :- t(0).", True, True, True, False),
+    ("self_disj", "t(X) ; b :- x(X), not t(X+1).", True, True, True, False),
+    ("show_term_2nd_lit", "#show f(X) : x(X), t(X).", False, False, None, "tx"),
+    ("show_term_t_cond_t", "#show t(X) : t(X).", False, False, None, True),
+    ("edge", "#edge (X,X) : t(X).", False, False, None, False),
+    ("project_atom", "#project t(X) : x(X).", False, False, None, False),
     ("show_sig", "#show t/1.", False, False, None, True),
     ("show_term", "#show f(X) : t(X).", False, False, None, True),
     ("show_term_neg", "#show f(X) : x(X), not t(X).", False, False, None, "tx"),
